@@ -24,7 +24,7 @@ use uuid::Uuid;
 
 use crate::lanes::{AgentShared, LaneCtl, LaneRec, RawAgent, SharedLane, SyncMode};
 use crate::remote::{
-    new_ctl, reader_task, set_stalled, writer_task, FrameLog, Pace, PacedReader, ReqKind, ReqLog, SharedCtl, SharedLog, SharedReqs,
+    new_ctl, reader_task, set_stalled, writer_task, CorruptHow, FrameLog, Pace, PacedReader, ReqKind, ReqLog, SharedCtl, SharedLog, SharedReqs,
     WriterCmd, FAST,
 };
 use crate::script::{Config, Step};
@@ -51,6 +51,11 @@ pub struct Session {
     /// Stall intervals of the reader (from, until).
     pub stalls: Vec<(u64, Option<u64>)>,
     pub is_probe: bool,
+    /// A command-only channel (`AgentAttachmentRequest::commander`): no reader, no completion promise.
+    pub one_way: bool,
+    /// This attachment was made under the routing id of that session while that session's attachment was
+    /// still open (overlapping attachments).
+    pub dup_of: Option<usize>,
 }
 
 struct Live {
@@ -65,6 +70,12 @@ struct Live {
     pace: Pace,
     /// (settle epoch in which the removal was first noticed, late requests left)
     late: Option<(u64, u32)>,
+}
+
+struct OneWayLive {
+    req_tx: mpsc::UnboundedSender<WriterCmd>,
+    writer: JoinHandle<()>,
+    session: usize,
 }
 
 #[derive(Clone, Debug)]
@@ -147,13 +158,103 @@ struct Runner {
     epoch: u64,
     http_tx: mpsc::Sender<swimos_api::agent::HttpLaneRequest>,
     http_sent: u64,
+    /// Attachments that were superseded by an overlapping attachment under the same id: their readers keep
+    /// draining (so that it is known what was still written to them), their writers stay open and silent.
+    shadow: Vec<Live>,
+    oneway: Vec<Option<OneWayLive>>,
 }
 
 impl Runner {
+    /// A second attachment under the id of remote `r`'s open attachment, on fresh channels.
+    async fn attach_dup(&mut self, r: usize) {
+        let open = self.live[r].as_ref().map_or(false, |l| {
+            let s = &self.sessions[l.session];
+            !l.reader_done && l.req_tx.is_some() && s.attached_t1.is_some() && s.completion.lock().is_none() && !s.is_probe
+        });
+        if !open {
+            return;
+        }
+        let old = self.live[r].take().expect("live");
+        let old_session = old.session;
+        self.shadow.push(old);
+        let (ci, co, p) = (self.cfg.cap_in[r], self.cfg.cap_out[r], self.cfg.pace[r]);
+        self.attach_as(r, ci, co, p, false, Some(old_session)).await;
+    }
+
+    async fn attach_oneway(&mut self, k: usize) {
+        if k >= self.oneway.len() {
+            return;
+        }
+        if let Some(old) = self.oneway[k].take() {
+            let _ = old.req_tx.send(WriterCmd::Close);
+        }
+        let id = Uuid::from_u128(0x2000 + self.sessions.len() as u128);
+        let cap = self.cfg.cap_in[k % self.cfg.cap_in.len()];
+        let (req_tx, req_rx) = byte_channel(nz(cap));
+        let (att_done_tx, att_done_rx) = trigger::trigger();
+        let reqs: SharedReqs = Arc::new(Mutex::new(ReqLog::default()));
+        let (wtx, wrx) = mpsc::unbounded_channel();
+        let writer = tokio::spawn(writer_task(id, NODE.to_string(), req_tx, wrx, reqs.clone()));
+        let attached_v = tokio::time::Instant::now();
+        let t0 = ticket();
+        let req = AgentAttachmentRequest::commander(id, req_rx, att_done_tx);
+        let mut attached_t1 = None;
+        if self.att_tx.send(req).await.is_ok() {
+            match tokio::time::timeout(STEP_TIMEOUT, att_done_rx).await {
+                Ok(Ok(())) => attached_t1 = Some(ticket()),
+                Ok(Err(_)) => {}
+                Err(_) => self.stuck.push(format!("attach of command channel {k} not confirmed")),
+            }
+        }
+        self.sessions.push(Session {
+            remote: 1000 + k,
+            id,
+            attached_t0: t0,
+            attached_t1,
+            reqs,
+            log: Arc::new(Mutex::new(FrameLog::default())),
+            completion: Arc::new(Mutex::new(None)),
+            attached_v,
+            completion_v: Arc::new(Mutex::new(None)),
+            reused_id: false,
+            stalls: vec![],
+            is_probe: false,
+            one_way: true,
+            dup_of: None,
+        });
+        self.oneway[k] = Some(OneWayLive { req_tx: wtx, writer, session: self.sessions.len() - 1 });
+    }
+
+    fn send_oneway(&mut self, k: usize, kind: ReqKind, lane: &str, body: bytes::Bytes) {
+        let Some(Some(ow)) = self.oneway.get(k) else { return };
+        {
+            let mut g = self.sessions[ow.session].reqs.lock();
+            if g.writer_gone.is_some() {
+                return;
+            }
+            g.queued += 1;
+        }
+        let _ = ow.req_tx.send(WriterCmd::Send(kind, lane.to_string(), body));
+    }
+
+    fn corrupt(&mut self, r: usize, how: CorruptHow, lane: &str) {
+        let Some(live) = self.live[r].as_ref() else { return };
+        let Some(tx) = live.req_tx.as_ref() else { return };
+        let s = &self.sessions[live.session];
+        if s.completion.lock().is_some() || s.reqs.lock().writer_gone.is_some() {
+            return;
+        }
+        let _ = tx.send(WriterCmd::Corrupt(how, lane.to_string()));
+    }
+
     async fn attach(&mut self, r: usize, cap_in: usize, cap_out: usize, pace: Pace, is_probe: bool) {
         if let Some(old) = self.live[r].take() {
             self.retire(old, true, true).await;
         }
+        self.attach_as(r, cap_in, cap_out, pace, is_probe, None).await;
+    }
+
+    async fn attach_as(&mut self, r: usize, cap_in: usize, cap_out: usize, pace: Pace, is_probe: bool, dup_of: Option<usize>) {
         // An attachment is normally a new connection with its own routing id. A connection that the runtime
         // removed for inactivity (completion RemoteTimedOut) attaches again under the SAME id when it has
         // something to say to the agent again (as the server's remote task does); other endings of an
@@ -164,8 +265,9 @@ impl Runner {
             .rev()
             .find(|s| s.remote == r && !s.is_probe)
             .map(|s| (s.id, matches!(*s.completion.lock(), Some((_, Some(DisconnectionReason::RemoteTimedOut))))));
-        let (id, reused_id) = match prev {
-            Some((id, true)) if !is_probe && self.rng.chance(2, 3) => (id, true),
+        let (id, reused_id) = match (dup_of, prev) {
+            (Some(d), _) => (self.sessions[d].id, false),
+            (_, Some((id, true))) if !is_probe && self.rng.chance(2, 3) => (id, true),
             _ => (Uuid::from_u128(0x1000 + self.sessions.len() as u128), false),
         };
         let (req_tx, req_rx) = byte_channel(nz(cap_in));
@@ -199,7 +301,7 @@ impl Runner {
                 Err(_) => self.stuck.push(format!("attach of remote {r} not confirmed")),
             }
         }
-        self.sessions.push(Session { remote: r, id, attached_t0: t0, attached_t1, reqs, log, completion, attached_v, completion_v, reused_id, stalls: vec![], is_probe });
+        self.sessions.push(Session { remote: r, id, attached_t0: t0, attached_t1, reqs, log, completion, attached_v, completion_v, reused_id, stalls: vec![], is_probe, one_way: false, dup_of });
         let session = self.sessions.len() - 1;
         self.live[r] = Some(Live { req_tx: Some(wtx), ctl, drop_signal, reader, reader_done: false, writer, watcher, session, pace, late: None });
     }
@@ -292,7 +394,22 @@ impl Runner {
         self.checkpoints.push(Checkpoint { ticket: ticket(), lanes, aggregate });
     }
 
+    /// The readers of superseded attachments drain at full speed from now on.
+    fn unstall_shadows(&mut self) {
+        for live in &self.shadow {
+            let was = live.ctl.lock().stalled;
+            if was {
+                set_stalled(&live.ctl, false);
+                if let Some(last) = self.sessions[live.session].stalls.last_mut() {
+                    last.1 = Some(ticket());
+                }
+            }
+            live.ctl.lock().pace = FAST;
+        }
+    }
+
     fn unstall_everything(&mut self) {
+        self.unstall_shadows();
         for r in 0..self.live.len() {
             self.stall(r, false);
             if let Some(live) = self.live[r].as_ref() {
@@ -311,7 +428,13 @@ impl Runner {
     }
 
     fn check_stuck(&mut self, what: &str) {
-        for live in self.live.iter().flatten() {
+        for ow in self.oneway.iter().flatten() {
+            let g = self.sessions[ow.session].reqs.lock();
+            if g.writer_gone.is_none() && g.queued > 0 {
+                self.stuck.push(format!("{what}: command channel still has {} unsent request(s) at quiescence", g.queued));
+            }
+        }
+        for live in self.live.iter().flatten().chain(self.shadow.iter()) {
             let g = self.sessions[live.session].reqs.lock();
             if g.writer_gone.is_none() && g.queued > 0 {
                 self.stuck.push(format!("{what}: remote {} still has {} unsent request(s) at quiescence", self.sessions[live.session].remote, g.queued));
@@ -398,6 +521,15 @@ impl Runner {
                     });
                 }
             }
+            Step::AttachDup(r) => self.attach_dup(*r).await,
+            Step::AttachOneWay(k) => self.attach_oneway(*k).await,
+            Step::OneWay(k, kind, lane, body) => self.send_oneway(*k, *kind, lane, body.clone()),
+            Step::DropOneWay(k) => {
+                if let Some(Some(ow)) = self.oneway.get(*k) {
+                    let _ = ow.req_tx.send(WriterCmd::Close);
+                }
+            }
+            Step::CorruptReq(r, how, lane) => self.corrupt(*r, *how, lane),
             Step::AgentReturn(_) | Step::StopAgent | Step::FinalIdle(_) => {}
         }
     }
@@ -485,6 +617,8 @@ pub fn run_case(cfg: &Config, script: &[Step], rng: &mut Rng) -> Obs {
             epoch: 0,
             http_tx,
             http_sent: 0,
+            shadow: vec![],
+            oneway: (0..cfg2.oneway).map(|_| None).collect(),
         };
 
         let mut agent_handle = Some(agent_handle);
@@ -593,6 +727,7 @@ pub fn run_case(cfg: &Config, script: &[Step], rng: &mut Rng) -> Obs {
             }
         }
         // Whatever is still buffered in the remotes' channels is read now.
+        runner.unstall_shadows();
         for r in 0..runner.live.len() {
             runner.stall(r, false);
             if let Some(live) = runner.live[r].as_ref() {
@@ -601,10 +736,13 @@ pub fn run_case(cfg: &Config, script: &[Step], rng: &mut Rng) -> Obs {
         }
         settle().await;
         settle().await;
-        for live in runner.live.iter_mut().flatten() {
+        for live in runner.live.iter_mut().flatten().chain(runner.shadow.iter_mut()) {
             live.reader.abort();
             live.writer.abort();
             live.watcher.abort();
+        }
+        for ow in runner.oneway.iter().flatten() {
+            ow.writer.abort();
         }
         link_handle.abort();
         drop(stop_tx);
